@@ -1311,12 +1311,18 @@ class VariationalWassersteinDistance(darsia.EMD):
         ), "Jacobian should be a CSC matrix."
 
         # Effective Gauss-elimination for the particular case of the lagrange multiplier
-        self.fully_reduced_jacobian.data[:] = np.delete(
-            reduced_jacobian.data.copy(), self.rm_indices
+        # NOTE: Build a new matrix for each solve. The LU factorization sorts the indices
+        # of its argument in place and flags it as canonical; reusing the cached matrix
+        # (with restored indices) made all but the first solve of an object operate on a
+        # differently ordered matrix.
+        fully_reduced_jacobian = sps.csc_matrix(
+            (
+                np.delete(reduced_jacobian.data, self.rm_indices),
+                self.fully_reduced_jacobian_indices.copy(),
+                self.fully_reduced_jacobian_indptr.copy(),
+            ),
+            shape=self.fully_reduced_jacobian_shape,
         )
-        # NOTE: The indices have to be restored if the LU factorization is to be used
-        # FIXME omit if not required
-        self.fully_reduced_jacobian.indices = self.fully_reduced_jacobian_indices.copy()
 
         # Rhs is not affected by Gauss elimination as it is assumed that the residual
         # is zero in the constrained cell, and the pressure is zero there as well.
@@ -1327,7 +1333,7 @@ class VariationalWassersteinDistance(darsia.EMD):
             self.fully_reduced_system_indices
         ].copy()
 
-        return self.fully_reduced_jacobian, fully_reduced_residual
+        return fully_reduced_jacobian, fully_reduced_residual
 
     def compute_flux_update(self, solution: np.ndarray, rhs: np.ndarray) -> np.ndarray:
         """Compute the flux update from the solution.
